@@ -107,6 +107,9 @@ class C11(core.Prop):
                         t = copy.deepcopy(base)
                         t['rings'] = [[els[i], els[j], 'd', 's']]
                         out.append({'g': t, 'base': base, 'names': names, 'aa': aa, 'syms': syms, 'virt': [], 'zero_ring': True})
+        # the same strings handed over as a base graph (MoleculeResolver.from_graph); every third shape
+        for s in list(out)[::3]:
+            out.append(dict(s, entry='graph'))
         for s in out:
             s['g'].pop('_where', None)
         return out
@@ -131,6 +134,13 @@ class C11(core.Prop):
         return {'text': cat('{', text, '}.', ftext), 'ref': cat('{', text0, '}.', ftext), 'holes': rec}
 
     def execute(self, M, shape, inp):
+        if shape.get('entry') == 'graph':
+            def run():
+                base, rest = pl.split_layers(inp['text'])
+                res = M.resolve.MoleculeResolver.from_graph(rest, M.read_cgsmiles.read_cgsmiles(base), last_all_atom=shape['aa'])
+                meta, mol = res.resolve()
+                return {'meta': pl.meta_data(meta), 'mol': pl.graph_data(mol)}
+            return [core.guard(run), core.guard(pl.run_resolver, M, inp['ref'], last_all_atom=shape['aa'])]
         return [core.guard(pl.run_resolver, M, inp['text'], last_all_atom=shape['aa']),
                 core.guard(pl.run_resolver, M, inp['ref'], last_all_atom=shape['aa'])]
 
